@@ -1475,9 +1475,13 @@ func (s *DefaultSpec) visitSameBodyChildren(cb visitFunc) {
 func (s *DefaultSpec) decode(content *hcl.BodyContent, blockLabels []blockLabel, ctx *hcl.EvalContext) (cty.Value, hcl.Diagnostics) {
 	val, diags := s.Primary.decode(content, blockLabels, ctx)
 	if val.IsNull() {
+		// Whether the default is used was decided by the primary value, so
+		// any marks on that (null) value carry over to the result.
+		_, marks := val.Unmark()
 		var moreDiags hcl.Diagnostics
 		val, moreDiags = s.Default.decode(content, blockLabels, ctx)
 		diags = append(diags, moreDiags...)
+		val = val.WithMarks(marks)
 	}
 	return val, diags
 }
